@@ -268,28 +268,37 @@ def mutate_dump(dmp, how):
 
 
 HEADER = (tocoq.COQ_HEADER +
-          "From Typify Require Import Spec.Valid Algo.Heck Algo.Sanitize Algo.Convert.\n"
+          "From Typify Require Import Spec.Valid Algo.Heck Algo.Sanitize Algo.Convert Algo.ConvertRoot.\n"
           "Close Scope string_scope.\n")
 
 
 def coq_case(i, doc, dump):
     try:
-        cd = tocoq.cdefs(doc["definitions"])
+        cd = tocoq.cdefs(doc.get("definitions", {}))
+        root = None
+        if "title" in doc:      # a titled root schema (RefKey::Root): convert_root / in_frag_root
+            root = tocoq.cschema({k: v for k, v in doc.items() if k not in ("definitions", "$schema")})
     except tocoq.Unsupported as e:
         return None
     lines = ["Definition D_%d : defs := %s.\n" % (i, cd)]
+    if root is None:
+        conv, frag = "convert_doc ascii_classes D_%d" % i, "in_frag ascii_classes D_%d" % i
+    else:
+        lines.append("Definition Rt_%d : schema := %s.\n" % (i, root))
+        args = "ascii_classes D_%d %s Rt_%d" % (i, tocoq.ustr(doc["title"]), i)
+        conv, frag = "convert_root " + args, "in_frag_root " + args
     if dump is not None:
         lines.append("Definition T_%d : space := %s.\n" % (i, tocoq.cspace(dump)))
-        goal = "convert_doc ascii_classes D_%d = Some T_%d" % (i, i)
+        goal = "%s = Some T_%d" % (conv, i)
     else:
         goal = "False"     # the real code rejected the document: a mismatch when in the fragment
     # outside the fragment nothing is claimed; whether the model still reproduces the real type space
     # (it does for name reuse, for instance) is reported for information: OUT_EQ / OUT
     lines.append(
-        'Goal True. tryif (assert (in_frag ascii_classes D_%d = true) by (vm_compute; reflexivity)) '
+        'Goal True. tryif (assert (%s = true) by (vm_compute; reflexivity)) '
         'then (tryif (assert (%s) by (vm_compute; reflexivity)) then idtac "R %d OK" else idtac "R %d MISMATCH") '
         'else (tryif (assert (%s) by (vm_compute; reflexivity)) then idtac "R %d OUT_EQ" else idtac "R %d OUT"). '
-        'Abort.\n' % (i, goal, i, i, goal, i, i))
+        'Abort.\n' % (frag, goal, i, i, goal, i, i))
     return "".join(lines)
 
 
@@ -299,7 +308,7 @@ def evaluate(tag, docs, shard=150, timeout=900):
     if dev:
         vlib.COQ = dev
     else:
-        ok, out = vlib.coq_make(["theories/Algo/Convert.vo"])
+        ok, out = vlib.coq_make(["theories/Algo/Convert.vo", "theories/Algo/ConvertRoot.vo"])
         if not ok:
             raise RuntimeError(out[-3000:])
     cases = [{"settings": {}, "steps": [{"op": "root", "doc": d}], "code": False} for d in docs]
@@ -358,7 +367,10 @@ def run(n=300, seed=1, tag="convert_check", exhaustive_docs=True, show=3):
     for d in mutate_names(rd[: n // 2], seed + 7):
         docs.append(d)
         origin.append("random-names")
-    verdict, gens = evaluate(tag, docs)
+    return summarise(docs, origin, *evaluate(tag, docs))
+
+
+def summarise(docs, origin, verdict, gens):
     # name reuse (hook verif::take_name_reuse, `name_reuse` of vh gen): assign_type resolved a named type to a
     # DIFFERENT existing type of that name.  `unique (all_names ..)` in in_frag claims this never happens on
     # the fragment; documents with such an event must all be classified outside (and some must exist).
@@ -386,6 +398,56 @@ def run(n=300, seed=1, tag="convert_check", exhaustive_docs=True, show=3):
             res["mismatches"].append({"index": i, "origin": origin[i], "verdict": v, "doc": d,
                                       "real": "ok" if g.get("all_ok") else g.get("steps")})
     return res
+
+
+# ---------------------------------------------------------------- K3 with a titled root schema (convert_root)
+ROOT_TITLES = ["Root", "root thing", "aaa", "Zed", "A", "B-root", "type", "the_Root2"]
+
+
+def root_docs(n, seed, full=True):
+    """documents `{title, <root schema>, definitions}`: add_root_schema converts the root as one more definition,
+    last, named by its title; `"$ref": "#"` points at it.  MODEL + K3 ONLY (no theorem is about these)."""
+    rnd = random.Random(seed * 7919 + 13)
+    selfref = [{"$ref": "#"}, {"type": "array", "items": {"$ref": "#"}}, {"type": ["object", "null"], "properties": {"up": {"$ref": "#"}}},
+               {"type": "object", "additionalProperties": {"$ref": "#"}}, {"type": "array", "items": {"$ref": "#"}, "minItems": 2, "maxItems": 2},
+               {"type": "array", "items": [{"type": "string"}, {"$ref": "#"}], "minItems": 2, "maxItems": 2}]
+    docs, origin = [], []
+    b = {"type": "object", "properties": {"z": {"type": "boolean"}}}
+    for t in (ROOT_TITLES[:5] if full else []):
+        for x in LEAVES:
+            for w in [x] + list(wraps(x)):
+                docs.append(dict(w, title=t, definitions={"A": {"type": "string", "enum": ["On", "off"]}, "B": b}))
+                origin.append("root-exhaustive")
+    for t in (ROOT_TITLES if full else ROOT_TITLES[:3]):
+        for x in selfref:
+            for w in [x] + list(wraps(x)):
+                docs.append(dict(w, title=t, definitions={"B": b, "C": {"type": "array", "items": {"$ref": "#"}}}))
+                origin.append("root-selfref")
+                docs.append(dict(w, title=t))
+                origin.append("root-selfref")
+    rd = random_docs(n, seed + 3)
+    for d in rd + mutate_names(rd[: n // 2], seed + 11):
+        defs = dict(d["definitions"])
+        # the root: a fresh schema, or one of the definitions moved to the root (its references stay valid)
+        if rnd.random() < 0.5 and len(defs) > 1:
+            k = rnd.choice(sorted(defs))
+            r = defs[k] if isinstance(defs[k], dict) else {}
+        else:
+            x = rnd.choice(LEAVES[:-1] + selfref)
+            r = rnd.choice([x] + list(wraps(x)))
+        r = {k: v for k, v in r.items() if k != "title"}
+        if rnd.random() < 0.3:
+            k = rnd.choice(sorted(defs))
+            if isinstance(defs[k], dict) and defs[k].get("type") == "object" and "properties" in defs[k]:
+                defs[k] = dict(defs[k], properties=dict(defs[k]["properties"], rootward={"type": "array", "items": {"$ref": "#"}}))
+        docs.append(dict(r, title=rnd.choice(ROOT_TITLES + sorted(defs)[:1]), definitions=defs))
+        origin.append("root-random")
+    return docs, origin
+
+
+def run_root(n=150, seed=1, tag="convert_check_root", full=True):
+    docs, origin = root_docs(n, seed, full)
+    return summarise(docs, origin, *evaluate(tag, docs))
 
 
 # ---------------------------------------------------------------- K3 under settings (Algo/ConvertS.v, C14F)
@@ -518,7 +580,7 @@ def run_settings(n=120, seed=1, tag="convert_check_s", per_doc=2):
     if dev:
         vlib.COQ = dev
     else:
-        ok, out = vlib.coq_make(["theories/Algo/ConvertS.vo"])
+        ok, out = vlib.coq_make(["theories/Algo/ConvertS.vo", "theories/Algo/ConvertRoot.vo"])
         if not ok:
             raise RuntimeError(out[-3000:])
     rnd = random.Random(seed * 7919 + 13)
@@ -542,7 +604,7 @@ def run_settings(n=120, seed=1, tag="convert_check_s", per_doc=2):
         for g in gens:
             if g.get("all_ok"):
                 mutate_dump(g["dump"], mut)
-    hdr = HEADER.replace("Algo.Convert.", "Algo.Convert Algo.ConvertS.")
+    hdr = HEADER.replace("Algo.ConvertRoot.", "Algo.ConvertRoot Algo.ConvertS.")
     d = os.path.join(vlib.WORK, "cases", tag)
     os.makedirs(d, exist_ok=True)
     for f in os.listdir(d):
@@ -666,6 +728,16 @@ def convert_obligations(ctx, prop, n=None, exhaustive_docs=None, k3=True):
     ctx.coverage["convert_fragment_documents"] = res["in_frag"]
     ctx.coverage["convert_outside_fragment"] = res["out"]
     ctx.evaluations += res["in_frag"]
+    if prop == "C02":
+        # a titled root schema (Algo/ConvertRoot.v): model + K3 only, no theorem is about these documents
+        rr = run_root(n=30 if quick else 200, seed=ctx.seed, tag="c02_convert_root_%s" % ("q" if quick else "t"),
+                      full=not quick)
+        ctx.oblige("correspondence K3 (titled root, model only - no theorem): ConvertRoot.convert_root = real type "
+                   "space on %d documents in in_frag_root; no name-reuse event among them" % rr["in_frag"],
+                   not rr["mismatches"] and not rr["reuse_in_frag"] and rr["in_frag"] > 0,
+                   json.dumps((rr["mismatches"] + rr["reuse_in_frag"])[:2], default=str)[:1500])
+        ctx.coverage["convert_root_documents"] = rr["in_frag"]
+        ctx.evaluations += rr["in_frag"]
     return res
 
 
@@ -677,6 +749,7 @@ def main():
     ap.add_argument("--no-exhaustive", action="store_true")
     ap.add_argument("--show", type=int, default=5)
     ap.add_argument("--settings", action="store_true", help="K3 under settings (Algo/ConvertS.v)")
+    ap.add_argument("--root", action="store_true", help="K3 with a titled root schema (convert_root)")
     a = ap.parse_args()
     if a.settings:
         res = run_settings(a.n, a.seed, a.tag + "_s")
@@ -686,7 +759,7 @@ def main():
         for m in res["mismatches"][: a.show]:
             print("MISMATCH", json.dumps(m)[:2500])
         sys.exit(0 if not res["mismatches"] else 1)
-    res = run(a.n, a.seed, a.tag, not a.no_exhaustive)
+    res = run_root(a.n, a.seed, a.tag + "_root") if a.root else run(a.n, a.seed, a.tag, not a.no_exhaustive)
     print(json.dumps({k: v for k, v in res.items() if k not in ("mismatches", "reuse_in_frag")}, indent=1))
     print("compared (in fragment, exact equality): %d   outside the fragment: %d   mismatches: %d"
           % (res["in_frag"], res["out"], len(res["mismatches"])))
